@@ -255,7 +255,7 @@ def select(ck, cases):
     by = {}
     for c in cases:
         by.setdefault(c["cfg"], []).append(c)
-    cap_nt, cap_tr = (40000, 6000) if ck.thorough() else (1500, 250)
+    cap_nt, cap_tr = (12000, 2000) if ck.thorough() else (1500, 250)
     out = []
     for cfg in sorted(by):
         nt = [c for c in by[cfg] if c["model"]["patches"] > 0 or c["devs"] or c["model"]["error"]]
